@@ -59,6 +59,8 @@ A = (0, 0, 0x055)
 B = (1, 1, 0x123)
 
 
+E_ID = (1, 0, 0x055)  # TC, same APID as A
+I_ID = (0, 0, 0x7FF)  # idle APID
 FILLERS = (bytes([0x19, 0x23, 0x00, 0x55, 0x00, 0x00, 0x00]), bytes([0x00, 0x55, 0x01, 0x02, 0x19, 0x23, 0x7F]))
 
 
@@ -89,6 +91,13 @@ def _items(variant):
     it["H1c"] = b"\xe0"
     it["H1d"] = b"\xf9"
     it["H3"] = b"\x00\x19\x00"
+    # other registered IDs (shards "idset"): a TC with the APID of A (same APID, other packet type), the idle APID 0x7FF, and a
+    # packet of ID A whose version field is not 0 (the packet ID is type, secondary-header flag and APID: it is registered)
+    it["E8"] = _pkt(E_ID, 8, 9, variant)
+    it["I9"] = _pkt(I_ID, 9, 10, variant)
+    v9 = bytearray(_pkt(A, 9, 11, variant))
+    v9[0] |= 5 << 5
+    it["V9"] = bytes(v9)
     # the largest packets the length field allows (total 65536 / 65542 octets, length field 0xFFF9 / 0xFFFF)
     it["A65536"] = _pkt(A, 65536, 7, variant)
     it["A65542"] = _pkt(A, 65542, 8, variant)
@@ -98,13 +107,14 @@ def _items(variant):
 ITEMS_V = (_items(0), _items(1))  # variant 1: queue 2 of the two-queue mode (other sequence counts, other payload)
 ITEMS = ITEMS_V[0]
 PACKETS = ("A7", "A9", "B8", "A13")  # alphabet of the enumerated streams
-ALL_PACKETS = PACKETS + ("A17", "A265", "A65536", "A65542")
+IDSET_PACKETS = ("E8", "I9", "V9")
+ALL_PACKETS = PACKETS + ("A17", "A265", "A65536", "A65542") + IDSET_PACKETS
 GARBAGE = ("G1", "G3", "G7")
 TAIL_SRC = "A9"
 
 
 def ids_raw():
-    return [(t << 12 | s << 11 | a) for (t, s, a) in (A, B, C_ID)]
+    return [(t << 12 | s << 11 | a) for (t, s, a) in (A, B, C_ID, E_ID, I_ID)]
 
 
 _BUILD_CACHE = {}
@@ -166,7 +176,24 @@ HALF_ID_GARBAGE = ("H2", "H1a", "H1b", "H1c", "H1d", "H3")
 HUGE_STREAMS = (["A65536"], ["A65542"], ["A7", "A65542", "B8"], ["A65536", "T3"])
 # a third registered ID that never occurs in a stream, and the six orders in which a caller may list the three IDs
 C_ID = (1, 0, 0x2AA)
-ID_ORDERS = ((0, 1), (1, 0), (0, 1, 2), (0, 2, 1), (1, 0, 2), (1, 2, 0), (2, 0, 1), (2, 1, 0))
+ID_ORDERS = ((0, 1), (1, 0), (0, 1, 2), (0, 2, 1), (1, 0, 2), (1, 2, 0), (2, 0, 1), (2, 1, 0),
+             # larger ID sets (indexes into (A, B, C_ID, E_ID, I_ID)): two IDs sharing an APID, the idle APID
+             (0, 1, 3, 4), (4, 3, 1, 0), (3, 0, 4, 1, 2))
+IDSET_ORDERS = (8, 9, 10)
+
+
+def idset_stream_names():
+    """every body of <= 3 items over {A7, B8, E8, I9, V9, G1} that contains one of E8, I9, V9 (no two adjacent garbage runs),
+    bodies of < 3 items also followed by a tail T2 / T7"""
+    alpha = ("A7", "B8") + IDSET_PACKETS + ("G1",)
+    out = []
+    for L in range(1, 4):
+        for body in itertools.product(alpha, repeat=L):
+            if not any(b in IDSET_PACKETS for b in body) or any(body[i] == "G1" == body[i + 1] for i in range(L - 1)):
+                continue
+            for t in ((None, "T2", "T7") if L < 3 else (None,)):
+                out.append(list(body) + ([t] if t else []))
+    return out
 
 
 def sparse_gaps(n, spans, tail_start):
@@ -312,8 +339,8 @@ def _sp():
 
 def _pids(sp, order=0):
     """the registered IDs as the caller lists them: ID_ORDERS[order] indexes (A, B, C_ID)"""
-    three = (A, B, C_ID)
-    return [sp.PacketId(sp.PacketType(t), bool(s), a) for (t, s, a) in (three[i] for i in ID_ORDERS[order])]
+    known = (A, B, C_ID, E_ID, I_ID)
+    return [sp.PacketId(sp.PacketType(t), bool(s), a) for (t, s, a) in (known[i] for i in ID_ORDERS[order])]
 
 
 def _feature(stream, spans, tail_start, detail, sched):
@@ -347,14 +374,14 @@ def explore_stream(rec, names, mode, kcut, keeper, order=0):
             kind, detail = v
             feat = _feature(stream, spans, tail_start, detail, sched)
             if order:
-                feat += "/ids-listed-in-another-order"
+                feat += "/ids-listed-in-another-order" if order < 8 else "/larger-id-set"
             vcase = {"names": names, "order": order}
             if n < 300:
                 vcase["sched"] = "".join(map(str, sched))
             else:  # sparse encoding of a long schedule: [[gap, action], ...]
                 vcase["cuts"] = [[g, a] for g, a in enumerate(sched) if a]
                 detail = jsonable_short(detail)
-            rec.violation(_mk_sig(kind, feat), vcase, detail, None, repro=_repro(names, sched) if n < 300 else None)
+            rec.violation(_mk_sig(kind, feat), vcase, detail, None, repro=_repro(names, sched, order) if n < 300 else None)
         else:
             outcomes.add(outcome)
     rec.states += nsched
@@ -386,12 +413,14 @@ def jsonable_short(x):
     return x
 
 
-def _repro(names, sched):
+def _repro(names, sched, order=0):
     stream, spans, tail_start, missing = build_stream(names)
+    known = (A, B, C_ID, E_ID, I_ID)
+    ids = ", ".join("PacketId(PacketType(%d), %s, 0x%03x)" % (t, bool(sh), a) for (t, sh, a) in (known[i] for i in ID_ORDERS[order]))
     return (
         "import collections\nfrom spacepackets.ccsds.spacepacket import *\n"
         f"stream = bytes.fromhex('{stream.hex()}'); sched = '{''.join(map(str, sched))}'  # 1 = chunk boundary, 2 = boundary + parse\n"
-        "ids = [PacketId(PacketType.TM, False, 0x055), PacketId(PacketType.TC, True, 0x123)]\n"
+        f"ids = [{ids}]\n"
         "dq = collections.deque(); out = []; start = 0\n"
         "for gap in range(1, len(stream) + 1):\n"
         "    a = int(sched[gap - 1]) if gap < len(stream) else 2\n"
@@ -757,11 +786,19 @@ def shards(tier):
     # the caller's ID list in every order (and with a third, unused ID): streams of <= 2 items, every schedule / cut set
     for names in stream_names(2):
         n = len(build_stream(names)[0])
-        for order in range(1, len(ID_ORDERS)):
+        for order in range(1, 8):
             if n <= 9:
                 items.append({"kind": "sched", "names": names, "mode": "all", "kcut": 0, "order": order, "cost": 3 ** (n - 1)})
             else:
                 items.append({"kind": "sched", "names": names, "mode": "cuts", "kcut": 2, "order": order, "cost": n ** 2})
+    # other sets of registered IDs: same APID under both packet types, the idle APID, a packet with a non-zero version field
+    for i, names in enumerate(idset_stream_names()):
+        n = len(build_stream(names)[0])
+        order = IDSET_ORDERS[i % len(IDSET_ORDERS)]
+        if n <= 9:
+            items.append({"kind": "sched", "names": names, "mode": "all", "kcut": 0, "order": order, "cost": 3 ** (n - 1)})
+        else:
+            items.append({"kind": "sched", "names": names, "mode": "cuts", "kcut": 2 if tier == "quick" else 3, "order": order, "cost": n ** 2})
     for ia, na in enumerate(TWO_STREAMS):
         for nb in TWO_STREAMS[ia:]:
             la, lb = len(build_stream(na)[0]), len(build_stream(nb)[0])
@@ -843,7 +880,7 @@ def replay(case):
     v, calls, outcome = run_schedule(sp, _pids(sp, order), stream, spans, tail_start, missing, sched)
     if v:
         kind, detail = v
-        feat = _feature(stream, spans, tail_start, detail, sched) + ("/ids-listed-in-another-order" if order else "")
+        feat = _feature(stream, spans, tail_start, detail, sched) + (("/ids-listed-in-another-order" if order < 8 else "/larger-id-set") if order else "")
         rec.violation(_mk_sig(kind, feat), case, detail if len(stream) < 300 else jsonable_short(detail), None)
     return rec.result()
 
